@@ -174,9 +174,10 @@ def main():
         for line in open(mlog):
             m = re.match(r'##### (\S+)', line)
             if m:
-                cur = m.group(1); res[cur] = []; continue
+                cur = m.group(1); res.setdefault(cur, []); continue
             m = re.match(r'\[(C\d\d)\] (DETECTED|missed): (.*)', line)
             if m and cur:
+                res[cur] = [x for x in res[cur] if x["check"] != m.group(1)]  # a later run of the same check replaces the earlier one
                 res[cur].append({"check": m.group(1), "result": m.group(2).lower(), "detail": m.group(3).strip()[:300]})
     rows = []
     for mid, (prop, what, needs) in sorted(T.items()):
@@ -185,8 +186,9 @@ def main():
             continue
         conf = open(f'{d}/confirm.log').read().strip().splitlines() if os.path.exists(f'{d}/confirm.log') else []
         r = res.get(mid, [])
-        if not r and os.path.exists(f'{d}/meta.json'):
-            r = json.load(open(f'{d}/meta.json')).get('checks_run', [])
+        old = json.load(open(f'{d}/meta.json')) if os.path.exists(f'{d}/meta.json') else {}
+        if not r:
+            r = old.get('checks_run', [])
         det = sorted({x['check'] for x in r if x['result'] == 'detected'})
         meta = {
             "id": mid, "breaks_property": prop, "change": what, "needs_to_manifest": needs,
@@ -197,6 +199,8 @@ def main():
             "checks_run": r,
             "detected_by": det,
         }
+        if 'note' in old:
+            meta['note'] = old['note']
         json.dump(meta, open(f'{d}/meta.json', 'w'), indent=1)
         rows.append((mid, prop, what, ", ".join(det) if det else "— (quick tier)"))
     print("| change | breaks | what | caught by (quick tier, seed 1) |\n|---|---|---|---|")
